@@ -103,21 +103,8 @@ func decorate(r *hx.Rng, c icontour) icontour {
 		k := r.Intn(len(c))
 		c = append(append(icontour{}, c[k:]...), c[:k]...)
 	}
-	if r.Chance(1, 5) { // a collinear lattice vertex on an edge, or a duplicated vertex
-		k := r.Intn(len(c))
-		a, b := c[k], c[(k+1)%len(c)]
-		var m ipt
-		switch {
-		case a.x == b.x && abs(a.y-b.y) >= 2:
-			m = ipt{a.x, min(a.y, b.y) + 1 + r.Intn(abs(a.y-b.y)-1)}
-		case a.y == b.y && abs(a.x-b.x) >= 2:
-			m = ipt{min(a.x, b.x) + 1 + r.Intn(abs(a.x-b.x)-1), a.y}
-		default:
-			m = a
-		}
-		d := append(icontour{}, c[:k+1]...)
-		d = append(d, m)
-		c = append(d, c[k+1:]...)
+	if r.Chance(1, 3) { // redundant vertices: lattice points inside horizontal / vertical edges, repeated vertices
+		c = redundant(r, c)
 	}
 	return c
 }
@@ -131,9 +118,20 @@ func abs(a int) int {
 
 func latticePoly(r *hx.Rng, n int) ipoly {
 	var p ipoly
-	switch r.Intn(8) {
+	switch r.Intn(9) {
 	case 0:
-		return nil // empty operand
+		return nil // empty operand (printed as `0` or `nil`)
+	case 8: // only contours that bound no area, or a regular polygon plus such contours
+		if r.Bool() {
+			p = latticePoly(r, n)
+		}
+		for i, k := 0, r.Range(1, 3); i < k; i++ {
+			p = append(p, degenerateContour(r, n))
+		}
+		if r.Bool() && len(p) > 1 {
+			p[0], p[len(p)-1] = p[len(p)-1], p[0]
+		}
+		return p
 	case 1:
 		return nested(r, n)
 	case 2: // several rectangles (overlaps inside ONE operand cancel under the even-odd rule)
@@ -208,7 +206,18 @@ func genLattice(r *hx.Rng) string {
 	n := hx.Pick(r, []int{1, 2, 3, 3, 4, 4, 5, 6, 6, 8, 8, 10, 12, 12})
 	a := latticePoly(r, n)
 	var b ipoly
-	switch r.Intn(10) {
+	switch r.Intn(13) {
+	case 10: // three and more coincident edges on one line
+		n = max(n, 3)
+		a, b = coincident(r, n)
+	case 11: // several contours on both sides, asymmetric overlap
+		n = max(n, 3)
+		a, b = clusters(r, n)
+	case 12: // B repeats one contour of A (passed as the same contour slice) next to contours of its own
+		b = latticePoly(r, n)
+		if len(a) > 0 {
+			b = append(ipoly{a[r.Intn(len(a))]}, b...)
+		}
 	case 0: // identical operands (passed as the same slice)
 		b = a
 	case 1: // a copy shifted by one lattice step (clamped: long shared and abutting edges)
@@ -233,7 +242,11 @@ func genLattice(r *hx.Rng) string {
 	if r.Bool() {
 		a, b = b, a
 	}
-	return hx.Pick(r, ops) + " " + hx.Pick(r, fts) + " L " + strconv.Itoa(n) + " A " + fmtIPoly(a) + " B " + fmtIPoly(b)
+	ft := hx.Pick(r, fts)
+	if r.Chance(1, 6) { // other magnitudes: (lattice + offset) * 2^k
+		return hx.Pick(r, ops) + " " + latticeMagnitude(r, ft, n, a, b)
+	}
+	return hx.Pick(r, ops) + " " + ft + " L " + strconv.Itoa(n) + " A " + emptyTok(r, fmtIPoly(a)) + " B " + emptyTok(r, fmtIPoly(b))
 }
 
 // ---------------------------------------------------------------------------------------------- general position
@@ -301,7 +314,9 @@ func randomContour(r *hx.Rng, mode int) fcontour {
 
 func generalPoly(r *hx.Rng, mode int) fpoly {
 	var p fpoly
-	switch r.Intn(6) {
+	switch r.Intn(7) {
+	case 6:
+		p = islands(r, mode)
 	case 0: // self-intersecting random polygon
 		p = fpoly{randomContour(r, mode)}
 	case 1: // star-shaped simple polygon
@@ -514,6 +529,11 @@ func samplePointsIn(r *hx.Rng, a, b fpoly, crossings []fpt, k int, span, sampM f
 }
 
 func genGeneral(r *hx.Rng) string {
+	return genGeneralX(r, nil)
+}
+
+// genGeneralX: a general-position call; `force` fixes the magnitude transform (observation streams).
+func genGeneralX(r *hx.Rng, force *xform) string {
 	for {
 		ft := hx.Pick(r, fts)
 		mode := hx.Pick(r, []int{0, 0, 0, 1, 2})
@@ -530,21 +550,44 @@ func genGeneral(r *hx.Rng) string {
 		if r.Bool() {
 			a, b = b, a
 		}
+		rotateStart(r, a)
+		rotateStart(r, b)
+		if r.Chance(1, 4) { // coordinates that differ by 1e-5 … 1e-9 without being equal
+			nudge(r, ft, a, b)
+		}
 		crossings, ok := generalPosition(a, b)
 		if !ok {
 			continue
 		}
 		k := 120
 		pts := samplePoints(r, a, b, crossings, k)
+		margin := sampMargin
+		var x *xform
+		if force != nil {
+			x = force
+		} else if r.Chance(1, 6) {
+			t := pickXform(r, ft)
+			x = &t
+		}
+		if x != nil { // another magnitude: the transformed values are the input; general position is re-checked on them
+			a, b = x.poly(a, ft), x.poly(b, ft)
+			if _, ok := generalPositionM(a, b, math.Ldexp(genMargin, x.k)*0.9); !ok {
+				continue
+			}
+			for i := range pts {
+				pts[i] = fpt{math.Ldexp(pts[i].x+x.tx, x.k), math.Ldexp(pts[i].y+x.ty, x.k)}
+			}
+			margin = x.marginTok()
+		}
 		var sb strings.Builder
-		sb.WriteString(hx.Pick(r, ops) + " " + ft + " P " + sampMargin + " " + strconv.Itoa(k))
+		sb.WriteString(hx.Pick(r, ops) + " " + ft + " P " + margin + " " + strconv.Itoa(k))
 		for _, p := range pts {
 			sb.WriteByte(' ')
 			sb.WriteString(fmtNum(p.x))
 			sb.WriteByte(' ')
 			sb.WriteString(fmtNum(p.y))
 		}
-		sb.WriteString(" A " + fmtFPoly(a) + " B " + fmtFPoly(b))
+		sb.WriteString(" A " + emptyTok(r, fmtFPoly(a)) + " B " + emptyTok(r, fmtFPoly(b)))
 		return sb.String()
 	}
 }
